@@ -288,6 +288,30 @@ fn eviction(run: &mut Run, rng: &mut Rng, prof: &str, i: usize, idle: u64, nforg
     emit(run, "evict", &Case { ops, kind: "eviction-by-forged-ssrcs" });
 }
 
+/// Forged packets addressed to a KNOWN SSRC must not keep its context alive: the table is above the
+/// high-water mark, the genuine stream G (ROC 1) is idle for 61 s in total, but A sees forged G
+/// packets half-way. When another stream's packet triggers the eviction, A and B must agree on G.
+fn refresh_attack(run: &mut Run, rng: &mut Rng, prof: &str, i: usize, via_rtcp: bool) {
+    let mut ops = new_three(rng, i, prof);
+    let g = 0x0a0b_0c0du32;
+    let mut slot = 0;
+    for k in 0..33u32 { ops.push(Op::ProtectRtp(S, PktSpec::simple(5, 0x2000 + k, vec![1, 2, 3]))); both(&mut ops, false, slot); slot += 1; }
+    for seq in [65000u16, 65500, 100, 200] { ops.push(Op::ProtectRtp(S, PktSpec::simple(seq, g, vec![seq as u8, 2, 3]))); both(&mut ops, false, slot); slot += 1; }
+    let g_rtp = slot - 1;
+    ops.push(Op::ProtectRtcp(S, Src::Lit(rtcp_packet(rng, g, 12)))); both(&mut ops, true, slot); let g_rtcp = slot; slot += 1;
+    ops.push(Op::Tick(30));
+    for n in 0..4usize {
+        if via_rtcp { forged(&mut ops, true, g_rtcp, Mut::Flip(70 + n)); } else { forged(&mut ops, false, g_rtp, Mut::Flip(100 + n)); }
+    }
+    ops.push(Op::Tick(31));
+    // the other streams carry on and trigger the idle eviction on both receivers
+    for k in 0..33u32 { ops.push(Op::ProtectRtp(S, PktSpec::simple(6, 0x2000 + k, vec![4, 5, 6]))); both(&mut ops, false, slot); slot += 1; }
+    ops.push(Op::Snap(A)); ops.push(Op::Snap(B));
+    for seq in [300u16, 301] { ops.push(Op::ProtectRtp(S, PktSpec::simple(seq, g, vec![seq as u8, 7]))); both(&mut ops, false, slot); slot += 1; }
+    ops.push(Op::Snap(A)); ops.push(Op::Snap(B));
+    emit(run, "evict", &Case { ops, kind: "keep-alive-by-forged-packets" });
+}
+
 /// the eviction rule itself on genuine SSRC churn (model correspondence of the table logic)
 fn churn(rng: &mut Rng, i: usize, prof: &str) -> Case {
     let mut ops = new_three(rng, i, prof);
@@ -322,7 +346,7 @@ pub fn run(args: &Args) {
     let t = args.tier_thorough;
     for (pi, prof) in PROFILES.iter().enumerate() {
         // every bit, every truncation
-        let sizes: &[usize] = if t { &[0, 1, 16, 33, 100] } else { &[9] };
+        let sizes: &[usize] = if t { &[0, 1, 16, 33, 100, 300] } else { &[9] };
         for &plen in sizes {
             exhaustive_mutations(&mut run, &mut rng, prof, pi, plen, false);
             exhaustive_mutations(&mut run, &mut rng, prof, pi, plen, true);
@@ -333,10 +357,12 @@ pub fn run(args: &Args) {
                                       (61, 3, false, 31), (61, 3, true, 32), (3600, 64, false, 0), (61, 32, false, 0)] {
             eviction(&mut run, &mut rng, prof, pi, idle, nf, rtcp, pre);
         }
+        refresh_attack(&mut run, &mut rng, prof, pi, false);
+        refresh_attack(&mut run, &mut rng, prof, pi, true);
     }
-    let ni = if t { 6000 } else { 600 };
+    let ni = if t { 30000 } else { 600 };
     for i in 0..ni { let c = interleaved(&mut rng, i, PROFILES[i % 4]); emit(&mut run, "forge", &c); }
-    let nc = if t { 400 } else { 40 };
+    let nc = if t { 2000 } else { 40 };
     for i in 0..nc { let c = churn(&mut rng, i, PROFILES[i % 4]); emit(&mut run, "evict", &c); }
     run.notes.insert("sessions".into(), serde_json::json!("0 sender, 1 receiver A (genuine + forged), 2 receiver B (genuine only); equal keys"));
     run.notes.insert("clock".into(), serde_json::json!("time is driven through SrtpSession::verif_advance_clock (back-dates last_used); the 61 s eviction scenario therefore runs in both tiers"));
